@@ -7,13 +7,15 @@ written for this purpose, and the recorded event trace is compared with the
 trace predicted by coq/model/Wsgi.v.  The oracle states the property clauses
 on the recorded events only.
 """
+import datetime
+import email.utils
 import html
 import http.client
 import http.cookies
 import io
 import itertools
 import json
-from urllib.parse import quote
+from urllib.parse import quote, urljoin
 
 from props.common import enc_str, enc_list, Reader
 from props import wsgi_cov
@@ -66,10 +68,34 @@ def status_of(st):
     return int(s.split()[0]), s
 
 
-def cookie_rendered(name, value):
-    c = http.cookies.SimpleCookie()
-    c[name] = value
-    return c[name].OutputString()
+def cookie_morsel(jar, name, value, opts=None):
+    """what BaseResponse.set_cookie(name, value, **opts) leaves in a SimpleCookie (plain str values only),
+    written from the documentation of set_cookie, with http.cookies and email.utils only"""
+    jar[name] = value
+    for k, v in (opts or {}).items():
+        if k == 'max_age_td':
+            k, v = 'max_age', v[1] + v[0] * 24 * 3600
+        if k == 'expires':
+            v = email.utils.formatdate(v, usegmt=True)
+        jar[name][k.replace('_', '-')] = v
+    return jar[name]
+
+
+def cookie_rendered(name, value, opts=None):
+    return cookie_morsel(http.cookies.SimpleCookie(), name, value, opts).OutputString()
+
+
+def cookie_kwargs(opts):
+    kw = {}
+    for k, v in (opts or {}).items():
+        if k == 'max_age_td':
+            kw['max_age'] = datetime.timedelta(days=v[0], seconds=v[1])
+        else:
+            kw[k] = v
+    return kw
+
+
+DELETE_OPTS = dict(max_age=-1, expires=0)
 
 
 # --------------------------------------------------------------------------
@@ -209,15 +235,33 @@ def build_resp(r, err, rec, shared=None):
         return rec.shared[shared]
     from ombott import HTTPResponse, HTTPError
     body = build(r['body'], rec)
+    ctor = r.get('ctor', 'append')
+    hs = [tuple(h) for h in r['headers']]
+    if ctor == 'dict' and len({n for n, _ in hs}) != len(hs):
+        ctor = 'list'                      # a dict cannot hold a name twice
+    kw = {}
+    if ctor == 'list':
+        kw['headers'] = hs
+    elif ctor == 'dict':
+        kw['headers'] = dict(hs)
+    elif ctor == 'kw':
+        if len({n for n, _ in hs}) == len(hs):
+            kw.update(dict(hs))            # **more_headers
+        else:
+            kw['headers'] = hs
     if err:
-        x = HTTPError(r['status'], body)
+        x = HTTPError(r['status'], body, **kw)
     else:
-        x = HTTPResponse(body, r['status'])
-    for n, v in r['headers']:
-        x.headers.append(n, v)
-    for n, v in r['cookies']:
-        x.set_cookie(n, v)
+        x = HTTPResponse(body, r['status'], **kw)
+    if ctor == 'append':
+        for n, v in hs:
+            x.headers.append(n, v)
+    for c in r['cookies']:
+        x.set_cookie(c[0], c[1], **cookie_kwargs(c[2] if len(c) > 2 else None))
     return x
+
+
+FATAL = {'KeyboardInterrupt': KeyboardInterrupt, 'SystemExit': SystemExit, 'MemoryError': MemoryError}
 
 
 def build(o, rec):
@@ -249,11 +293,44 @@ def run_prog(app, h, rec):
         if m['m'] == 'status':
             app.response.status = m['v']
         elif m['m'] == 'set':
-            app.response.headers[m['n']] = m['v']
+            if m.get('via') == 'prop' and m['n'] == 'Content-Type':
+                app.response.content_type = m['v']
+            elif m.get('via') == 'prop' and m['n'] == 'Content-Length':
+                app.response.content_length = m['v']
+            else:
+                app.response.headers[m['n']] = m['v']
         elif m['m'] == 'add':
             app.response.headers.append(m['n'], m['v'])
         elif m['m'] == 'cookie':
-            app.response.set_cookie(m['n'], m['v'])
+            app.response.set_cookie(m['n'], m['v'], **cookie_kwargs(m.get('opts')))
+        elif m['m'] == 'delcookie':
+            app.response.delete_cookie(m['n'], **cookie_kwargs(m.get('opts')))
+        elif m['m'] == 'del':
+            if m.get('via') == 'del':
+                if m['n'] in app.response.headers:
+                    del app.response.headers[m['n']]
+            else:
+                app.response.headers.pop(m['n'], None)
+        elif m['m'] == 'clear':
+            if m.get('ns') is None:
+                app.response.headers.clear()
+            else:
+                app.response.headers.clear(*m['ns'])
+        elif m['m'] == 'update':
+            app.response.headers.update(dict(m['items']))
+        elif m['m'] == 'bad':
+            w = m['what']
+            if w == 'ctl':
+                app.response.headers['X-Bad'] = m['v']
+            elif w == 'type':
+                app.response.headers.append('X-Bad', b'bytes')
+            elif w == 'status':
+                app.response.status = m['v']
+            elif w == 'cookie-type':
+                app.response.set_cookie('bad', 5)
+            elif w == 'cookie-long':
+                app.response.set_cookie('bad', 'x' * 4097)
+            raise AssertionError('the call above must raise')
         elif m['m'] in ('rmhook', 'addhook'):
             name = 'after_request' if m['after'] else 'before_request'
             tag = 'hookA' if m['after'] else 'hookB'
@@ -270,7 +347,18 @@ def run_prog(app, h, rec):
     if res['k'] == 'ret':
         return build(res['o'], rec)
     if res['k'] == 'raise_http':
-        raise build_resp(res['r'], res['err'], rec, res.get('shared'))
+        r = res['r']
+        if res.get('via') == 'abort':
+            import ombott
+            ombott.abort(r['status'], build(r['body'], rec))
+        raise build_resp(r, res['err'], rec, res.get('shared'))
+    if res['k'] == 'redirect':
+        import ombott
+        if res.get('code') is None:
+            ombott.redirect(res['loc'])
+        ombott.redirect(res['loc'], res['code'])
+    if res['k'] == 'raise_fatal':
+        raise FATAL[res['exc']]('fatal')
     raise Boom('boom')
 
 
@@ -292,9 +380,37 @@ def request_path(case):
     return base
 
 
-def build_app(case, rec):
+def config_of(case):
+    cfg = case.get('cfg') or {}
+    return {k: cfg[k] for k in ('catchall', 'debug') if k in cfg}
+
+
+def new_app(case):
     from ombott import Ombott
-    app = Ombott()
+    cfg = case.get('cfg') or {}
+    if cfg.get('via') == 'setup':
+        app = Ombott()
+        app.setup(config_of(case))
+        return app
+    if cfg.get('via') == 'ctor':
+        return Ombott(config_of(case))
+    return Ombott()
+
+
+def register_hook(app, case, name, f, k):
+    how = case.get('hookreg', 'add_hook')
+    if how == 'mixed':
+        how = ('add_hook', 'on', 'deco')[k % 3]
+    if how == 'on':
+        app.on(name, f)
+    elif how == 'deco':
+        app.on(name)(f)
+    else:
+        app.add_hook(name, f)
+
+
+def build_app(case, rec):
+    app = new_app(case)
     method = case['method']
     rt = case['routing']
 
@@ -306,10 +422,10 @@ def build_app(case, rec):
     app._verif_hooks = {'before_request': {}, 'after_request': {}}
     for i, h in enumerate(case['before']):
         f = app._verif_hooks['before_request'][i] = mk('hookB', i, h)
-        app.add_hook('before_request', f)
+        register_hook(app, case, 'before_request', f, i)
     for j, h in enumerate(case['after']):
         f = app._verif_hooks['after_request'][j] = mk('hookA', j, h)
-        app.add_hook('after_request', f)
+        register_hook(app, case, 'after_request', f, j + 1)
     rule = '/h/a/<x:path>'
     if rt['k'] == 'ok':
         app.route(rule, method=rt.get('reg', method), callback=mk('handler', None, rt['h']))
@@ -347,11 +463,19 @@ def make_environ(case):
         'wsgi.input': io.BytesIO(b''), 'wsgi.errors': io.StringIO(), 'wsgi.version': (1, 0),
         'wsgi.multithread': False, 'wsgi.multiprocess': False, 'wsgi.run_once': False, 'SCRIPT_NAME': '',
     }
-    if case['json']:
+    if case.get('accept') is not None:
+        env['HTTP_ACCEPT'] = case['accept']
+    elif case['json']:
         env['HTTP_ACCEPT'] = 'application/json'
+    if case.get('proto'):
+        env['SERVER_PROTOCOL'] = case['proto']
     if case['fw']:
         env['wsgi.file_wrapper'] = RecWrapper
     return env
+
+
+ACCEPTS = [('application/json', True), ('application/json; q=0.9', True), ('application/jsonx', True),
+           ('text/html, application/json', False), ('', False), ('Application/JSON', False), ('*/*', False)]
 
 
 # --------------------------------------------------------------------------
@@ -428,7 +552,7 @@ def validated_call(app, environ, rec):
     result = None
     try:
         result = app(environ, start_response)
-    except Exception as e:
+    except BaseException as e:      # KeyboardInterrupt / SystemExit are let through by the framework
         escaped = type(e).__name__
     if escaped is None:
         if result is None:
@@ -488,8 +612,13 @@ def run_impl(case):
     rec = Rec()
     saved = om.format_exc
     om.format_exc = lambda *a, **kw: TB_TEXT
+    saved_g = (om.Globals.app, om.Globals.request, om.Globals.response)
     try:
+        if case['kind'] == 'respapi':
+            return run_respapi(case, rec)
         app = build_app(case, rec)
+        # redirect() works on the module-level default application: make this one the default
+        om.Globals.app, om.Globals.request, om.Globals.response = app, app.request, app.response
         if case['kind'] == 'pair':
             out = []
             for v in variants(case):
@@ -499,6 +628,40 @@ def run_impl(case):
         return validated_call(app, make_environ(case), rec)
     finally:
         om.format_exc = saved
+        om.Globals.app, om.Globals.request, om.Globals.response = saved_g
+
+
+def run_respapi(case, rec):
+    """BaseResponse members the framework itself never calls on the request path"""
+    from ombott import HTTPResponse, HTTPError
+    from ombott.response import BaseResponse
+    body = RecIterC(rec, 1, [dict(k='yield', o=dict(k='bytes', b=[1]))])
+    r = HTTPResponse(body, case['status'], headers=[('X-A', 'v'), ('X-A', 'w'), ('X-B', 'u')])
+    r.set_cookie('sid', 'v1')
+    out = dict(first=list(next(iter(r))), status=[r.status, r.status_line, r.status_code])
+    r.close()
+    HTTPResponse('plain').close()
+    out['closes'] = sum(1 for e in rec.ev if e[0] == 'close')
+    out['repr'] = repr(HTTPResponse('x', 200, headers=[('x-a', ' v ')]))
+    hd = r.headers
+    out['hd'] = [len(hd), sorted(hd), hd['X-B'], 'X-A' in hd, repr(HTTPResponse('').headers)]
+    try:
+        c = HTTPResponse('x', 201, headers=[('X-B', 'u')])
+        c.set_cookie('sid', 'v1')
+        k = c.copy(HTTPError)
+        out['copy'] = [type(k).__name__, k.status, k.headerlist, k.body]
+    except Exception as e:
+        out['copy'] = type(e).__name__
+    try:
+        r.copy()
+        out['copy_multi'] = 'ok'
+    except TypeError:
+        out['copy_multi'] = 'TypeError'
+    try:
+        r.copy(dict)
+    except AssertionError:
+        out['copy_cls'] = 'AssertionError'
+    return dict(respapi=out)
 
 
 def variants(case):
@@ -516,7 +679,24 @@ def status_unmodelled(case):
     return bool(tok) and not tok[0].isascii()
 
 
+def model_skipped(case):
+    """case kinds checked by the oracle only: error pages with debug=True (page text not modelled),
+    KeyboardInterrupt / SystemExit / MemoryError (let through by design), BaseResponse members outside the request path"""
+    if case['kind'] == 'respapi':
+        return 'respapi'
+    if case['kind'] in ('req', 'pair'):
+        if (case.get('cfg') or {}).get('debug'):
+            return 'debug'
+        found = []
+        walk(case, lambda d: found.append(1) if d.get('k') == 'raise_fatal' else None)
+        if found:
+            return 'fatal'
+    return None
+
+
 def project(obs, case):
+    if model_skipped(case):
+        return dict(skipped=model_skipped(case))
     if case['kind'] == 'status':
         return dict(status='unmodelled') if status_unmodelled(case) else obs
     if case['kind'] == 'pair':
